@@ -974,8 +974,8 @@ func stringToReflectValue(value string, kind reflect.Kind) (reflect.Value, error
 		return reflect.ValueOf(value), nil
 	}
 
-	// FIXME This should end up as a TypeError?
-	panic(fmt.Errorf("invalid conversion of %q to reflect.Kind: %v", value, kind))
+	// A key kind no property name converts to (struct, interface, ...): a TypeError for the script.
+	panic(conversionException(fmt.Errorf("TypeError: invalid conversion of %q to reflect.Kind: %v", value, kind)))
 }
 
 // conversionException turns an error returned by toReflectValue or
